@@ -29,6 +29,8 @@
     mrange <rs>:<rl> <cs>:<cl>              MatrixRange::from(current, …)       → ok size=RxC
     mreverse <0|1> <0|1>                    MatrixReverse::from                 → ok size=RxC
     mmap                                    MatrixMap::from                     → ok size=RxC
+    mswap                                   MatrixRefTensor(TensorAccess(TensorRefMatrix::from(current)?,
+                                            [column, row])): the transposed view  → ok size=CxR | err <shape>
     roundtrip                               MatrixRefTensor(TensorRefMatrix::from(current)?)
                                                                                 → ok size=RxC | err <shape>
     mget <r> <c>                            checked getters                     → some(<id>) | none
@@ -286,6 +288,10 @@ def step (s : State) (toks : List String) : State × String :=
   | "mmap" :: _ =>
     match s.expr with
     | some e => install s (.map e)
+    | none => (s, "no-view")
+  | "mswap" :: _ =>
+    match s.expr with
+    | some e => install s (.swapped e)
     | none => (s, "no-view")
   | "roundtrip" :: rest =>
     match s.expr, s.view with
